@@ -295,8 +295,8 @@ func (e *Enc) applyCall(name, kind string, fn *ssa.Function, fc *FuncContract, c
 		nwv := e.heapGet(e.cur, pa.key)
 		e.monotoneAssume(pa.key, old, nwv)
 	}
-	if len(mod) > 0 || kind != "extern" {
-		// anything that allocates advances the clock
+	{
+		// the callee may allocate: the clock advances by an unknown amount
 		nn := e.fresh("now", SInt)
 		e.assert(Ge(nn, e.cur.now))
 		e.cur.now = nn
@@ -1000,7 +1000,81 @@ func (e *Enc) axiomRelevant(ax Clause) bool {
 	return false
 }
 
+// onlyFlowsObligations: syntactic data-flow restriction on a parameter (every use must be an argument of an allowed callee).
+func (e *Enc) onlyFlowsObligations() {
+	if e.fc == nil {
+		return
+	}
+	for _, of := range e.fc.OnlyFlows {
+		var param *ssa.Parameter
+		for _, p := range e.fn.Params {
+			if p.Name() == of.Param {
+				param = p
+			}
+		}
+		if param == nil {
+			e.obligeNamed(e.name+"/contract-applies/onlyflows/"+of.Param, "contract-applies", of.Param, e.fn.Pos(), False, of.Props, "onlyflows names unknown parameter "+of.Param)
+			continue
+		}
+		var check func(v ssa.Value, depth int)
+		seen := map[ssa.Value]bool{}
+		check = func(v ssa.Value, depth int) {
+			if seen[v] || depth > 4 {
+				return
+			}
+			seen[v] = true
+			refs := v.Referrers()
+			if refs == nil {
+				return
+			}
+			for _, r := range *refs {
+				switch x := r.(type) {
+				case *ssa.DebugRef:
+					continue
+				case *ssa.ChangeInterface:
+					check(x, depth+1)
+					continue
+				case *ssa.MakeInterface:
+					check(x, depth+1)
+					continue
+				case *ssa.Phi:
+					check(x, depth+1)
+					continue
+				case ssa.CallInstruction:
+					name, _, _ := e.calleeName(x.Common())
+					ok := false
+					for _, c := range of.Callees {
+						if c == name {
+							ok = true
+						}
+					}
+					if len(e.inLoops[r.Block()]) > 0 {
+						ok = false
+						name = name + " (inside a loop)"
+					}
+					// the value must be an argument, not the receiver of an invoke
+					if x.Common().IsInvoke() && x.Common().Value == v {
+						ok = false
+						name = name + " (as receiver)"
+					}
+					save := e.curReach
+					e.curReach = True
+					e.oblige("flows", of.Param+"/"+name, r.Pos(), BoolLit(ok), of.Props, "parameter "+of.Param+" may only be passed to "+strings.Join(of.Callees, ", "))
+					e.curReach = save
+					continue
+				}
+				save := e.curReach
+				e.curReach = True
+				e.oblige("flows", of.Param+"/other-use", r.Pos(), False, of.Props, "parameter "+of.Param+" may only be passed to "+strings.Join(of.Callees, ", "))
+				e.curReach = save
+			}
+		}
+		check(param, 0)
+	}
+}
+
 func (e *Enc) assumeEntry() {
+	e.onlyFlowsObligations()
 	env := e.fnEnv(e.cur)
 	for _, p := range e.fn.Params {
 		e.assumeLoadedInv(e.vals[p].T, p.Type())
@@ -1042,6 +1116,18 @@ func (e *Enc) checkPost(results []Val) {
 		}
 	}
 	pos := e.fn.Pos()
+	// ghost assignments declared for this function happen when it returns
+	if e.fc != nil {
+		for _, gu := range e.fc.GhostUpd {
+			t, err := env.Eval(gu.Expr)
+			if err != nil {
+				e.note("ghostset %s: %v", gu.Name, err)
+				continue
+			}
+			e.heapSet(e.cur, "gh|"+gu.Name, t.T)
+		}
+		env.state = e.cur
+	}
 	// lock discipline: every lock taken is released on every return path
 	if _, used := e.heap0["gh|$held"]; used {
 		e.obligeNamed(e.name+"/lock/balanced", "lock", "balanced", pos, Eq(e.heldArr(), e.heap0["gh|$held"]), []string{"C05", "C20"}, "locks held at return equal locks held at entry")
@@ -1065,15 +1151,6 @@ func (e *Enc) checkPost(results []Val) {
 			continue
 		}
 		e.obligeNamed(e.name+"/post/"+label, "post", label, pos, t.T, cl.Props, "ensures "+cl.Src)
-	}
-	for _, gu := range e.fc.GhostUpd {
-		// the function's effect on the ghost variable must match its declared update
-		t, err := env.inState(e.entry).Eval(gu.Expr)
-		if err != nil {
-			continue
-		}
-		cur := e.heapGet(e.cur, "gh|"+gu.Name)
-		e.obligeNamed(e.name+"/post/ghost-"+gu.Name, "post", "ghost-"+gu.Name, pos, Eq(cur, t.T), nil, "ghostset "+gu.Name+" = "+gu.Src)
 	}
 }
 
